@@ -22,11 +22,14 @@ RULE = (
     "Hypothesis-generated accepted configurations on harness-written GeoTIFF pairs (10-16 x 12-20, with or without "
     "CRS/transform, masks, nodata int or 'NaN'): legal pipelines with and without validation (incl. filling) and with "
     "0-3 confidence steps, invalid_disparity in {-9999, 'NaN'}, integer interval or grid files (left only, or left and "
-    "right with validation). Non-trivial = >= 1 confidence band and >= 1 invalid pixel in the left map; classes: "
+    "right with validation), the right image with its own geotransform in part of the cases; one case in eight is also run "
+    "through the console entry point (pandora.Pandora:main via argparse) in a separate process and must write the same "
+    "files. Non-trivial = >= 1 confidence band and >= 1 invalid pixel in the left map; classes: "
     "interval kind, validation, georeferencing. distinct = distinct canonical payload."
 )
 ASSUMPTIONS = [
-    "pandora.main is called in-process (the console entry point only parses arguments and calls it)",
+    "pandora.main is called in-process so that the in-memory products can be captured; the console entry point is run in a "
+    "sub-process for a sample of the cases and compared file by file",
     "the 'completed configuration' is what check_configuration.check_conf returns for the same user file on a fresh machine",
     "the undocumented 'indicator' key of confidence steps (rewritten at run time from the step suffix) is not compared",
 ]
@@ -53,7 +56,9 @@ def cases(draw):
     return {"pair": pair, "pipeline": steps, "disp": [a, b], "grid": draw(st.integers(0, 2)) == 0,
             "georef": draw(st.booleans()), "nodata": draw(st.sampled_from(["omit", -9999, 0, "NaN"])),
             # the right image has its own footprint (same CRS, another origin) in half of the georeferenced cases
-            "georef_right": draw(st.sampled_from([None, [12.5, -3.0], [-40.0, 7.5]]))}
+            "georef_right": draw(st.sampled_from([None, [12.5, -3.0], [-40.0, 7.5]])),
+            # one case in eight is also run through the console entry point in a separate process
+            "cli": draw(st.integers(0, 7)) == 0}
 
 
 def read_products(outdir):
@@ -155,6 +160,36 @@ def body(ctx: Ctx, p: dict) -> None:
                         ctx.violation("C19/georeferencing-differs", f"{key}: {prof.get('crs')} {prof.get('transform')} {tag}")
                 elif prof.get("crs") is not None:
                     ctx.violation("C19/georeferencing-invented", f"{key}: {prof.get('crs')} {tag}")
+        # ---- the console entry point (`pandora <config> <output_dir>`), in a process of its own: same files
+        if p.get("cli"):
+            import subprocess
+            import sys
+
+            from .. import env as _env
+
+            out3 = os.path.join(d, "out3")
+            r3 = subprocess.run([sys.executable, "-m", "pbt.clirun", cfg_path, out3], env=_env.base_env(), cwd=_env.VERIF_DIR,
+                                capture_output=True, text=True)
+            if r3.returncode != 0:
+                ctx.violation("C19/command-line-run-fails", f"exit {r3.returncode}: {r3.stderr[-300:]} {tag}")
+            else:
+                prods3 = read_products(out3)
+                if set(prods3) != set(prods):
+                    ctx.violation("C19/command-line-products-presence", f"{sorted(prods3)} vs {sorted(prods)} {tag}")
+                else:
+                    for k in prods:
+                        a3, pr3, de3 = prods3[k]
+                        a1, pr1, de1 = prods[k]
+                        if (not np.array_equal(a1, a3, equal_nan=True) or de1 != de3 or pr1.get("dtype") != pr3.get("dtype") or
+                                pr1.get("crs") != pr3.get("crs") or pr1.get("transform") != pr3.get("transform")):
+                            ctx.violation("C19/command-line-raster-differs", f"{k} {tag}")
+                try:
+                    with open(os.path.join(out1, "cfg", "config.json")) as f1, open(os.path.join(out3, "cfg", "config.json")) as f3:
+                        c1, c3 = json.load(f1), json.load(f3)
+                    if not same(c1, c3):
+                        ctx.violation("C19/command-line-saved-configuration-differs", tag)
+                except Exception as exc:  # noqa: BLE001
+                    ctx.violation("C19/saved-configuration-not-loadable", f"(command line) {type(exc).__name__}: {str(exc)[:100]} {tag}")
         # ---- saved configuration
         saved_path = os.path.join(out1, "cfg", "config.json")
         try:
@@ -207,6 +242,8 @@ def body(ctx: Ctx, p: dict) -> None:
             classes.append("right-image-own-footprint")
     if any(c.get("invalid_disparity") == "NaN" for _, c in p["pipeline"]):
         classes.append("invalid=NaN")
+    if p.get("cli"):
+        classes.append("console-entry-point")
     ctx.judged += 1
     ctx.case(p, nontrivial=bool("confidence_measure" in captured["left"] and ((lm & 0b1111000011) != 0).any()), classes=classes)
 
